@@ -86,6 +86,21 @@ def run(rep: Report, tier: str) -> None:
 				if b in ('self', 'other'):
 					ra.violate(f'{cls.name}.{mname}:mutates {b}.{a}', (DI_PY, n.lineno), f'{cls.name}.{mname} mutates {b}.{a} in place: the operand does not keep behaving as before', unparse(n))
 			ra.ok(f'{cls.name}.{mname}:no-operand-mutation', f.where)
+	# every other place that installs a whole store (factory methods such as LazyDI.instantiate): the installed object must be built for this container.
+	# Keeping the caller's dict makes bind/unbind on the container write through to the caller and to every container built from the same dict
+	for cls in (di, lazy):
+		for name, defs in cls.methods.items():
+			if name in ('_clone', 'combine'):
+				continue
+			f = defs[-1]
+			for n in walk_no_nested(f.node):
+				if not (isinstance(n, (ast.Assign, ast.AnnAssign)) and getattr(n, 'value', None) is not None):
+					continue
+				for t in (n.targets if isinstance(n, ast.Assign) else [n.target]):
+					if isinstance(t, ast.Attribute) and mangle(cls.name, t.attr) in binding_stores[cls.name]:
+						v = deref(f.node, n.value) if isinstance(n.value, ast.Name) else n.value
+						fresh = is_fresh(v) or (isinstance(v, ast.Dict) and not v.keys)
+						ra.check(fresh, f'{cls.name}.{name}:{t.attr}:installed-store-is-own', (DI_PY, n.lineno), f'{cls.name}.{name} installs `{unparse(n.value)}` as {t.attr} without copying: the container shares the dict with its caller (and with every other container built from it), so a later bind / unbind / rebind on one of them changes what the others resolve', unparse(n))
 	# "the right operand's bindings AND instances win": an instance the left operand already created for a symbol must not survive when the right operand
 	# binds that symbol (otherwise the outcome of combine depends on whether the left operand happened to resolve the symbol before)
 	cf = di.method('combine')
@@ -324,5 +339,6 @@ def run(rep: Report, tier: str) -> None:
 	rd = rep.rule('C19/per-module-container', 'the per-module DI is the shared container combined with a fresh LazyDI built from the module dependency definitions', floor=1)
 	ep = idx.mod('rogw/tranp/providers/syntax/entrypoints.py')
 	rep.consulted(ep.relpath)
-	src = unparse(ep.tree)
-	rd.check('.combine(' in src and 'LazyDI.instantiate' in src, 'entrypoints-combine', (ep.relpath, 1), 'providers/syntax/entrypoints.py no longer builds the per-module container with shared.combine(LazyDI.instantiate(...))')
+	combines = [n for n in ast.walk(ep.tree) if isinstance(n, ast.Call) and isinstance(n.func, ast.Attribute) and n.func.attr == 'combine']
+	lazies = [n for n in ast.walk(ep.tree) if isinstance(n, ast.Call) and unparse(n.func) == 'LazyDI.instantiate']
+	rd.check(bool(combines) and bool(lazies), 'entrypoints-combine', (ep.relpath, 1), 'providers/syntax/entrypoints.py no longer builds the per-module container with shared.combine(LazyDI.instantiate(...))')
